@@ -121,6 +121,15 @@ def ref_meta(rng, box):
     info_extra = {"private": 1} if rng.random() < 0.3 else {}
     if rng.random() < 0.3:
         info_extra["zzz-ext"] = "v"
+    if rng.random() < 0.4:
+        # unknown keys INSIDE info that are named like top-level fields: they are part of the
+        # info dictionary (and of the hash), never trackers or web seeds of the torrent
+        decoys = {"announce": "http://decoy.invalid/announce",
+                  "announce-list": [["http://decoy.invalid/tier1"], ["udp://decoy.invalid:1"]],
+                  "url-list": ["http://decoy.invalid/seed/"], "httpseeds": ["http://decoy.invalid/h"],
+                  "comment": "decoy", "created by": "decoy"}
+        for k in rng.sample(sorted(decoys), rng.randrange(1, 4)):
+            info_extra[k] = decoys[k]
     meta = refspec.ref_metafile(name, files, pl, version, single=single, trailing_pad=True,
                                 with_length=rng.random() < 0.5, extra=extra,
                                 info_extra=info_extra)
